@@ -726,6 +726,15 @@ func genParserOps(r *RNG, spec *ParserSpec, g pgen, inputLen int) []Op {
 			if r.Chance(0.2) {
 				n = bs
 			}
+			if r.Chance(0.25) {
+				// within a few bytes of what the buffer holds now, i.e. close to
+				// the capacity it has grown to (reuse of the own array with or
+				// without the read margin)
+				n = held + r.Range(-8, 8)
+				if n < 0 {
+					n = 0
+				}
+			}
 			if g.oversizeReset && r.Chance(0.1) {
 				n = bs + 1 + r.Intn(3)
 			}
@@ -752,6 +761,52 @@ func genParserOps(r *RNG, spec *ParserSpec, g pgen, inputLen int) []Op {
 				ops[i].K = "ParseNil"
 				ops[i].Re = false
 			}
+		}
+	}
+	return ops
+}
+
+// genResetRecords: a caller that hands over one record after the other with
+// Reset(data) and parses each to the end (no Write in between, so the buffer
+// keeps whatever capacity Reset gave it). Record lengths follow a random walk
+// with small steps (consecutive lengths within a few bytes of each other, the
+// read margin of 7 bytes being the interesting distance), capacities vary
+// between tight, +3, +7 and large.
+func genResetRecords(r *RNG, spec *ParserSpec, inputLen int) []Op {
+	bc := spec.defaults()
+	bs, bl := bc.BufferSize, maxInt(1, bc.BlockSize)
+	if bs <= 0 {
+		bs = 16
+	}
+	var ops []Op
+	n := 1 + r.Intn(minInt(bs, 300))
+	used := 0
+	for used+n <= inputLen && len(ops) < 120 {
+		ops = append(ops, Op{K: "Reset", N: n, X: r.Pick(1, 1, 1, 4, 2, 3)})
+		used += n
+		for i := minInt(n/bl+1, 6); i > 0; i-- {
+			op := Op{K: "Parse", Re: r.Chance(0.7)}
+			if r.Chance(0.2) {
+				op.F = lz.NoTrailingLiterals
+			}
+			ops = append(ops, op)
+		}
+		if r.Chance(0.1) {
+			ops = append(ops, Op{K: "Shrink"})
+		}
+		if r.Chance(0.15) {
+			ops = append(ops, genReadAtOp(r, bs))
+		}
+		if r.Chance(0.7) {
+			n += r.Range(-9, 9)
+		} else {
+			n = 1 + r.Intn(minInt(bs, 300))
+		}
+		if n < 1 {
+			n = 1
+		}
+		if n > bs {
+			n = bs
 		}
 	}
 	return ops
